@@ -144,7 +144,11 @@ func (ex *Exec) execFrom(fr *Frame, b *ssa.BasicBlock, start int, st *State, k r
 			return
 		case *ssa.Call:
 			i := i
+			// goroutines of other callers may run between any two steps: the shared state moves
+			// within the rely before the step, and the step itself must respect the guarantee
+			before := ex.interfere(fr, st, x)
 			ex.doCall(fr, x.Common(), x.Pos(), x, st, func(st *State, r Value) {
+				ex.checkGuarantee(fr, before, st, x)
 				fr2 := fr.clone()
 				r.T = x.Type()
 				fr2.vals[x] = r
